@@ -118,3 +118,16 @@ def silence_logging() -> list[str]:
             except Exception:  # noqa: BLE001
                 pass
     return done
+
+
+def plain_error_messages() -> list[str]:
+    """AliasResolutionError builds an f-string from the alias path/target/line number; formatting realises
+    symbolic values (one path per line number!). The message is not the subject: keep the attributes, drop the text."""
+    import _griffe.exceptions as E
+
+    def _init(self, alias):
+        self.alias = alias
+        Exception.__init__(self, "could not resolve alias (message formatting stubbed)")
+
+    E.AliasResolutionError.__init__ = _init
+    return ["AliasResolutionError.__init__ keeps .alias but does not format its message"]
